@@ -262,6 +262,9 @@ Proof.
   all: try (solve [eapply group_sem_mono; eauto | eapply choice_sem_mono; eauto
                   | destruct gs; [exact H | eapply choice_sem_mono; eauto]]).
   all: try (solve [repeat (first [step IH H | stepd IH H]; cbn beta iota); try exact H; auto]).
+  - (* CollectExactly *)
+    destruct n0; [destruct (its_fail (mk_iter i ctx)); [apply IH; exact H|]|];
+      stepd IH H; exact H.
   - (* RecoverVia *) step IH H; [exact H|]. destruct r0 as [a0|]; [|discriminate]. step IH H; exact H.
   - (* RecoverSkipUntil *) step IH H; [exact H|]. destruct r0 as [a0|]; [|discriminate]. stepd IH H; exact H.
   - (* RecoverSkipRetry *) step IH H; [exact H|]. destruct r0 as [a0|]; [|discriminate]. stepd IH H; exact H.
